@@ -222,6 +222,8 @@ class LogicDense(torch.nn.Module):
                     x = gumbel_sigmoid(x, tau=self.temperature, hard=False)
                 elif self.forward_sampling == "gumbel_hard":
                     x = gumbel_sigmoid(x, tau=self.temperature, hard=True)
+                else:
+                    raise ValueError(self.forward_sampling)
             else:
                 x = (x > 0).to(torch.float32)
         return x
